@@ -26,6 +26,7 @@ func (B *Bound) newFnA(fn *ssa.Function) *fnA {
 		phiCands: map[*ssa.Phi][]*candidate{}, taint: map[ssa.Value]bool{}, fwd: map[*ssa.UnOp]ssa.Value{}}
 	a.computeCanon()
 	a.computeFwd()
+	a.computeHeapFwd()
 	a.computeTaint()
 	a.computeLoops()
 	return a
@@ -174,6 +175,62 @@ func (a *fnA) computeFwd() {
 	}
 }
 
+// computeHeapFwd: a store through &X.f followed, with no intervening call or
+// store, by a load through &X.f (same SSA base value, same field) yields the
+// stored value. go/ssa does not CSE the address computations.
+func (a *fnA) computeHeapFwd() {
+	type akey struct {
+		base  ssa.Value
+		field int
+	}
+	keyOf := func(addr ssa.Value) (akey, bool) {
+		fa, ok := addr.(*ssa.FieldAddr)
+		if !ok {
+			return akey{}, false
+		}
+		return akey{fa.X, fa.Field}, true
+	}
+	for _, b := range a.fn.Blocks {
+		for i, in := range b.Instrs {
+			st, ok := in.(*ssa.Store)
+			if !ok {
+				continue
+			}
+			k, ok := keyOf(st.Addr)
+			if !ok {
+				continue
+			}
+			// walk forward through the call-free, store-free region
+			var walk func(bb *ssa.BasicBlock, from int, depth int)
+			walk = func(bb *ssa.BasicBlock, from int, depth int) {
+				for _, in2 := range bb.Instrs[from:] {
+					switch x := in2.(type) {
+					case *ssa.Store, *ssa.MapUpdate, *ssa.Call, *ssa.Defer, *ssa.Go:
+						return
+					case *ssa.UnOp:
+						if x.Op == token.MUL {
+							if k2, ok := keyOf(x.X); ok && k2 == k {
+								if _, done := a.fwd[x]; !done {
+									a.fwd[x] = st.Val
+								}
+							}
+						}
+					}
+				}
+				if depth > 3 {
+					return
+				}
+				for _, s := range bb.Succs {
+					if len(s.Preds) == 1 {
+						walk(s, 0, depth+1)
+					}
+				}
+			}
+			walk(b, i+1, 0)
+		}
+	}
+}
+
 func (a *fnA) localOnly(al *ssa.Alloc) bool {
 	for _, r := range *al.Referrers() {
 		switch x := r.(type) {
@@ -197,6 +254,15 @@ func (a *fnA) computeTaint() {
 	for _, p := range a.fn.Params {
 		if a.B.taintParam(a.fn, p) {
 			a.taint[p] = true
+		}
+	}
+	if a.B.taintCall != nil {
+		for _, b := range a.fn.Blocks {
+			for _, in := range b.Instrs {
+				if call, ok := in.(*ssa.Call); ok && a.B.taintCall(call) {
+					a.taint[call] = true
+				}
+			}
 		}
 	}
 	changed := true
@@ -682,6 +748,7 @@ func (a *fnA) seedPhiCandidates() {
 		}
 	}
 	var cmpVals []ssa.Value
+	var cmpConsts []*big.Int
 	seenCmp := map[ssa.Value]bool{}
 	for _, b := range a.fn.Blocks {
 		for _, in := range b.Instrs {
@@ -711,9 +778,19 @@ func (a *fnA) seedPhiCandidates() {
 				case token.LSS, token.LEQ, token.GTR, token.GEQ:
 					for _, v := range []ssa.Value{x.X, x.Y} {
 						if isIntLike(v.Type()) && !seenCmp[v] {
-							if _, isC := v.(*ssa.Const); !isC {
+							if cst, isC := v.(*ssa.Const); !isC {
 								seenCmp[v] = true
 								cmpVals = append(cmpVals, v)
+							} else if k, ok := constBig(cst); ok && len(cmpConsts) < 8 {
+								dup := false
+								for _, o := range cmpConsts {
+									if o.Cmp(k) == 0 {
+										dup = true
+									}
+								}
+								if !dup {
+									cmpConsts = append(cmpConsts, k)
+								}
 							}
 						}
 					}
@@ -771,6 +848,17 @@ func (a *fnA) seedPhiCandidates() {
 					}
 					return leq(pt(), lv)
 				})
+				add(fmt.Sprintf("%s >= %s", a.describe(phi), a.describe(v)), func() (Ineq, bool) {
+					lv := a.lin(v)
+					if _, mentions := lv.C[a.valTerm(phi)]; mentions {
+						return Ineq{}, false
+					}
+					return geq(pt(), lv)
+				})
+			}
+			for _, k := range cmpConsts {
+				k := k
+				add(fmt.Sprintf("%s <= %s", a.describe(phi), k), func() (Ineq, bool) { return leq(pt(), linBig(k)) })
 			}
 			// join phis: bounds relative to incoming values that dominate the join
 			for _, e := range phi.Edges {
